@@ -211,6 +211,14 @@ func simplify(v any) any {
 			out[k] = simplify(e)
 		}
 		return out
+	case Out2:
+		return map[string]any{"a": simplify(t.A), "b": simplify(t.In2.B)}
+	case Out3:
+		return map[string]any{"a": simplify(t.A), "b": simplify(t.In2.B), "c": simplify(t.C)}
+	case OutP2:
+		return map[string]any{"a": simplify(t.A), "b": simplify(t.In2.B)}
+	case OutP3:
+		return map[string]any{"a": simplify(t.A), "b": simplify(t.In2.B), "c": simplify(t.C)}
 	case *OrdKeyed:
 		out := make(map[string]any, len(t.K))
 		for i, k := range t.K {
@@ -329,9 +337,38 @@ type S3 struct {
 	C any `json:"c"`
 }
 
+// Embedded + shadowed shapes (Go shadowing: the outer field wins). The abstract object is {a: outer A, b: embedded B
+// (, c: outer C)}; the embedded A carries the marker Hidden and is not part of the abstract tree, so an evaluator that
+// picks the shadowed field returns a value the specification does not know.
+type In2 struct {
+	A any `json:"a"`
+	B any `json:"b"`
+}
+type Out2 struct {
+	In2
+	A any `json:"a"`
+}
+type Out3 struct {
+	In2
+	A any `json:"a"`
+	C any `json:"c"`
+}
+type OutP2 struct { // pointer to the embedded struct
+	*In2
+	A any `json:"a"`
+}
+type OutP3 struct {
+	*In2
+	A any `json:"a"`
+	C any `json:"c"`
+}
+
+// Hidden is the value of every shadowed field.
+const Hidden = "SHADOWED"
+
 // Reps lists the representations Build knows.
 // ("tmap", typed maps, can be built too but is not in the list: the statement of C11 does not name typed maps.)
-var Reps = []string{"simple", "gen", "tslice", "array", "struct", "pstruct", "keyed"}
+var Reps = []string{"simple", "gen", "tslice", "array", "struct", "pstruct", "estruct", "pestruct", "keyed"}
 
 // Build holds the tree n in representation rep. used reports whether the representation differs from
 // "simple" anywhere (otherwise the case adds nothing).
@@ -496,6 +533,22 @@ func (b *builder) build(n Node) any {
 				}
 				return S3{A: kids[0], B: kids[1], C: kids[2]}
 			}
+		case "estruct", "pestruct":
+			ptr := b.rep == "pestruct"
+			switch {
+			case len(ks) == 2 && ks[0] == "a" && ks[1] == "b":
+				b.used = true
+				if ptr {
+					return OutP2{In2: &In2{A: Hidden, B: kids[1]}, A: kids[0]}
+				}
+				return Out2{In2: In2{A: Hidden, B: kids[1]}, A: kids[0]}
+			case len(ks) == 3 && ks[0] == "a" && ks[1] == "b" && ks[2] == "c":
+				b.used = true
+				if ptr {
+					return OutP3{In2: &In2{A: Hidden, B: kids[1]}, A: kids[0], C: kids[2]}
+				}
+				return Out3{In2: In2{A: Hidden, B: kids[1]}, A: kids[0], C: kids[2]}
+			}
 		case "keyed":
 			b.used = true
 			return &OrdKeyed{K: append([]string{}, ks...), V: kids}
@@ -641,6 +694,14 @@ func equationOf(f Frag) *jp.Equation {
 		}
 	}
 	switch op {
+	case "eqnull":
+		return jp.Eq(jp.Get(jp.A().C(key)), jp.ConstNil())
+	case "nenull":
+		return jp.Neq(jp.Get(jp.A().C(key)), jp.ConstNil())
+	case "eqnothing":
+		return jp.Eq(jp.Get(jp.A().C(key)), jp.ConstNothing())
+	case "nenothing":
+		return jp.Neq(jp.Get(jp.A().C(key)), jp.ConstNothing())
 	case "mm":
 		sub := func(k string, fr any) jp.Expr {
 			x := jp.A().C(k)
